@@ -1,13 +1,78 @@
 """C09 — the disk spool queue is an exact persistent FIFO across clean restarts."""
-import json, random
+import re, json, random
 from checks import dqlib
 from vlib.core import Machinery
 
 LEVEL = "model_checking"
 
 
+def conc_close(ctx):
+    import os
+    tf = os.path.join(ctx.out, "c09_conc_trace.ndjson")
+    nh = ctx.pick(10, 80)
+    res = ctx.go_test("dq", run="^TestDQConcurrent$", timeout=ctx.pick(900, 3000), expect_ok=False,
+                      env=dict(VERIF_DQC_TRACE=tf, VERIF_DQC_HISTORIES=nh))
+    events = ctx.read_ndjson(tf) if os.path.exists(tf) else []
+    if res["rc"] != 0:
+        if panic_in_repo(res["text"]):
+            ctx.violation("queue-panics conc-close", "the queue panicked while being closed under an attached consumer", dict(tail=res["text"][-2000:]))
+            return
+        raise Machinery("dq concurrent driver failed (rc=%s); log %s\n%s" % (res["rc"], res["log"], res["text"][-2000:]))
+    if not events or events[-1]["ev"] != "end":
+        raise Machinery("dq concurrent driver result is incomplete")
+    events = events[:-1]
+    hmeta = {e["h"]: e for e in events if e["ev"] == "hist"}
+    cyc = [e for e in events if e["ev"] == "cycle"]
+
+    def on_reject(block, idx):
+        ev = block[idx]
+        hm = hmeta.get(block[0]["h"], {})
+        about = "queue closed and reopened %s times under an attached consumer (maxBytesPerFile=%s syncEvery=%s, %s messages)" % (
+            hm.get("cycles"), hm.get("maxbytes"), hm.get("syncevery"), hm.get("total"))
+        ntk = sum(1 for r in block[:idx] if r["ev"] == "take")
+        if ev["ev"] == "take":
+            sig = "fifo-take conc-close"
+            what = "%s: delivery #%d is message %s (0 = not the expected bytes), expected message %d: lost or delivered again across close/reopen" % (
+                about, ntk + 1, ev.get("id"), ntk + 1)
+        elif ev["ev"] == "depth":
+            nput = sum(1 for r in block[:idx] if r["ev"] == "put")
+            sig = "depth-at-rest conc-close"
+            what = "%s: Depth() after a reopen = %s, but %d messages were accepted by Put and %d received by the consumer" % (about, ev.get("v"), nput, ntk)
+        elif ev["ev"] == "bad":
+            sig, what = "queue-hangs-or-errors conc-close", "%s: %s" % (about, json.dumps(ev.get("detail")))
+        else:
+            sig, what = "contract-event conc-close " + ev["ev"], "%s: event %s rejected" % (about, json.dumps(ev))
+        ctx.violation(sig, what, dict(history=hm, prefix=block[max(0, idx - 12):idx + 1]))
+
+    ntr, nrej = dqlib.validate_level_a(ctx, [e for e in events if e["ev"] != "cycle"], False, True, on_reject, max_rounds=6)
+    inflight = [c for c in cyc if c["producer_in_flight"]]
+    busy = [c for c in cyc if c["takes"] >= 50]
+    if (len(busy) < nh or not inflight) and not ctx.violations:
+        raise Machinery("conc-close: too few cycles closed under a busy consumer (%d) / with a producer in flight (%d)" % (len(busy), len(inflight)))
+    ctx.cov["close_under_attached_consumer"] = dict(histories=nh, cycles=len(cyc), cycles_with_50_or_more_deliveries=len(busy),
+                                                    cycles_closed_with_producer_in_flight=len(inflight),
+                                                    messages=sum(c["puts"] for c in cyc), rejected=nrej)
+
+
+def panic_in_repo(text):
+    """a Go panic / fatal error whose panicking goroutine is inside the repository's code (a panic raised by the
+    harness itself is a fault of the machinery, never a verdict)"""
+    m = re.search(r"(?:^|\n)(?:panic:|fatal error:)", text)
+    if not m:
+        return False
+    rest = text[m.start():]
+    g = re.search(r"\ngoroutine \d+ \[running\]:\n(.*?)(?:\n\n|$)", rest, re.S)
+    frames = [l for l in (g.group(1) if g else rest).splitlines() if l and not l.startswith("\t")]
+    frames = [f for f in frames if not f.startswith(("panic(", "runtime.", "testing.", "sync.", "internal/"))]
+    return bool(frames) and "github.com/grafana/carbon-relay-ng/" in frames[0]
+
+
 def run(ctx):
     q = ctx.quick()
+    import os
+    if os.environ.get("VERIF_C09_ONLY") == "conc":      # development aid: only the attached-consumer family
+        conc_close(ctx)
+        return
     # 1. exhaustive: no crash, reopen between any two operations, sizes from 1 cell to > segment
     if q:
         grid = [dict(MaxFile=3, SyncEvery=2, Sizes={1, 2, 4}, MaxPuts=4, MaxCrashes=0),
@@ -16,6 +81,19 @@ def run(ctx):
         grid = [dict(MaxFile=mf, SyncEvery=se, Sizes={1, 2, 4}, MaxPuts=5, MaxCrashes=0)
                 for mf in (1, 3, 6) for se in (1, 2, 7)]
     dqlib.mc_grid(ctx, grid)
+
+    # a Close() that persists the metadata before the loop has stopped (takes and puts in between are then not covered)
+    # is rejected: the reopened queue hands out again what the consumer already has / forgets what Put accepted
+    r = ctx.tlc("DiskQueue", "DiskQueue_mc.cfg", consts=dict(MaxFile=3, SyncEvery=2, Sizes={1, 2}, MaxPuts=3, MaxCrashes=0, AllowReopen=True,
+                                                              AllowTick=True, PostPuts=1, Mutant="close_sync_before_exit"),
+                expect_ok=False, count=False, tag="nv_close_sync")
+    if r["violated"] not in ("C09Fifo", "C09Depth", "C09DepthRest", "GenIdle"):
+        raise Machinery("deviation close_sync_before_exit is not rejected by the queue model (violated=%s): vacuity" % r["violated"])
+    r = ctx.tlc("DiskQueue", "DiskQueue_mc.cfg", consts=dict(MaxFile=2, SyncEvery=2, Sizes={1, 2}, MaxPuts=4, MaxCrashes=0, AllowReopen=False,
+                                                              AllowTick=True, PostPuts=1, Mutant="reader_roll_ge_behind"),
+                expect_ok=False, count=False, tag="nv_reader_roll")
+    if r["violated"] not in ("C09Fifo", "C09Depth", "C09DepthRest", "NoSkip"):
+        raise Machinery("deviation reader_roll_ge_behind is not rejected by the queue model (violated=%s): vacuity" % r["violated"])
 
     # 2. histories
     rng = random.Random(ctx.seed)
@@ -60,6 +138,9 @@ def run(ctx):
         ctx.violation(sig, what, dict(history=hists[h], prefix=block[:idx + 1][-30:]))
 
     ntr, nrej = dqlib.validate_level_a(ctx, events, False, True, on_reject)
+
+    # 4b. close and reopen under an attached consumer (and, every other cycle, a producer in flight): what the spool does
+    conc_close(ctx)
 
     # 5. level B binds DiskQueue.tla to the code
     nh, nev, okb = dqlib.validate_level_b(ctx, events, hists)
